@@ -60,8 +60,8 @@ func (l *PythonBaseLexer) EmitToken(token antlr.Token) {
 		if l.firstTokenIndex == l.lastTokenIndex {
 			var newArray = make([]antlr.Token, len(buffer)*2)
 			destIndex := len(newArray) - (len(buffer) - l.firstTokenIndex)
-			copy(newArray, buffer)
-			copy(newArray, buffer[:len(buffer)-l.firstTokenIndex])
+			copy(newArray, buffer[:l.firstTokenIndex])
+			copy(newArray[destIndex:], buffer[l.firstTokenIndex:])
 
 			l.firstTokenIndex = destIndex
 			buffer = newArray
